@@ -667,6 +667,14 @@ class VecExpr:
             if ta == tb == "f":
                 op = {ast.Add: "add", ast.Sub: "sub", ast.Mult: "mul", ast.Div: "div"}[type(n.op)]
                 return (f"(PrimFloat.{op} {a} {b})", "f")
+        if isinstance(n, ast.Compare) and len(n.ops) == 1 and isinstance(n.ops[0], ast.NotEq):
+            (a, ta), (b, tb) = self.tr(n.left), self.tr(n.comparators[0])
+            if ta == tb == "v":
+                return (f"(bmap2 (fun p_ q_ => negb (PrimFloat.eqb p_ q_)) {a} {b})", "bv")   # element-wise != on arrays
+        if isinstance(n, ast.BinOp) and isinstance(n.op, ast.BitAnd):
+            (a, ta), (b, tb) = self.tr(n.left), self.tr(n.right)
+            if ta == tb == "bv":
+                return (f"(bmap2 andb {a} {b})", "bv")
         if isinstance(n, ast.Compare) and len(n.ops) == 1 and isinstance(n.ops[0], (ast.Gt, ast.Lt, ast.GtE, ast.LtE)):
             (a, ta), (b, tb) = self.tr(n.left), self.tr(n.comparators[0])
             if ta == tb == "f":
@@ -821,6 +829,22 @@ def gen_base():
              "  if negb (is_update_X_and_G vdot xk gk (List.last X []) (List.last G []) eps) then (false, X, G)\n"
              "  else let X := X ++ [xk] in let G := G ++ [gk] in\n"
              "       if (Z.of_nat (List.length X) >? maxcor + 1)%Z then (true, List.tl X, List.tl G) else (true, X, G).")
+    # subspacemin.get_freev: free_vars = (<boolean array expression>).nonzero()[0]
+    st_ = ast.parse(_src("subspacemin.py"))
+    fn = _func(st_, "get_freev")
+    fv = [a_ for a_ in ast.walk(fn) if isinstance(a_, (ast.Assign, ast.AnnAssign)) and ast.unparse(a_.targets[0] if isinstance(a_, ast.Assign) else a_.target) == "free_vars"]
+    if len(fv) != 1:
+        raise TranslateError("get_freev: assignment of free_vars not found")
+    val = fv[0].value
+    if not (isinstance(val, ast.Subscript) and ast.unparse(val.slice) == "0" and isinstance(val.value, ast.Call) and isinstance(val.value.func, ast.Attribute)
+            and val.value.func.attr == "nonzero" and not val.value.args):
+        raise TranslateError("get_freev: free_vars is not <mask>.nonzero()[0]: " + ast.unparse(val))
+    m_, tm_ = VecExpr({"x_cp": ("x_cp", "v"), "lb": ("lb", "v"), "ub": ("ub", "v")}).tr(val.value.func.value)
+    if tm_ != "bv":
+        raise TranslateError("get_freev: the mask is not a boolean array")
+    L.append("Fixpoint bmap2 {A B} (f : A -> B -> bool) (a : list A) (b : list B) : list bool :=\n"
+             "  match a, b with x_ :: a', y_ :: b' => f x_ y_ :: bmap2 f a' b' | _, _ => [] end.")
+    L.append(f"Definition free_mask (x_cp lb ub : vec) : list bool := {m_}.")
     # the call sites in main.py: is_boxed, the loop guard and the final test
     mt = ast.parse(_src("main.py"))
     mf = _func(mt, "minimize_lbfgsb")
